@@ -57,7 +57,22 @@ J = {
       'immediately sorted',
   ('compiler/dialect_libraries/recursion_library.py', 'DiamondOrder', 'F3',
    'min(remaining, key=lambda p: (-fraction(p), p))'): 'the key contains the element itself: no ties',
+  ('type_inference/research/infer.py', 'BuildDependencies', 'F3',
+   'list(set(sorted(set(ds) - set([p]))) | set(result.get(p, [])))'):
+      'consumed by BuildComplexities (a sum); with cyclic dependencies the visiting order can change the complexity '
+      'of cycle members and thereby the order in which rules are typed -- the bounded tier compares hash seeds on '
+      'typed mutually recursive programs',
+  ('type_inference/research/reference_algebra.py', 'UnifyFriendlyRecords', 'F3', 'for f in set(concrete_a) | set(concrete_b)'):
+      'fills a record dict; records are rendered with their fields sorted (RenderType / StrIntKey) and field '
+      'unifications are independent of one another',
   # F4: environment reads
+  ('type_inference/research/reference_algebra.py', 'TypeReference.__str__', 'F4', 'id(self)'): 'debug text only',
+  ('type_inference/research/reference_algebra.py', 'VeryConcreteType', 'F4', 'id(t)'):
+      'identity used for cycle detection only (membership test)',
+  ('type_inference/research/reference_algebra.py', 'Unify', 'F4', 'id(a)'): 'identity comparison of the two roots',
+  ('type_inference/research/reference_algebra.py', 'Unify', 'F4', 'id(b)'): 'identity comparison of the two roots',
+  ('type_inference/research/reference_algebra.py', 'TypeStructureCopier.CopyTypeReference', 'F4', 'id(t)'):
+      'key of a memo table local to one copier object',
   ('compiler/functors.py', 'Timer.__init__', 'F4', 'datetime.datetime.now()'): 'profiling helper, not on a path to SQL',
   ('compiler/functors.py', 'Timer.Stop', 'F4', 'datetime.datetime.now()'): 'profiling helper, not on a path to SQL',
   ('compiler/dialect_libraries/recursion_library.py', 'GetDiamondRecursionFunctor', 'F4', 'time.time()'):
